@@ -805,6 +805,11 @@ mod thr {
         Lookup { n: u64 },
         /// `drain()` through a stale reference on ANOTHER thread's actor, only once it is stopping
         LateDrain { k: u64 },
+        /// wave 2: the owner only waits for its actor `k` to exit (`wait()`); somebody else ends it
+        AwaitExit { k: u64 },
+        /// wave 2: `kill()` (or `stop()`) of ANOTHER thread's actor through the shared reference, only while
+        /// its owner sits in `AwaitExit` (so every region of the exit runs inside an action that names `k`)
+        EndOther { k: u64, kill: bool },
     }
 
     #[derive(Clone, Debug)]
@@ -819,6 +824,8 @@ mod thr {
         events: Mutex<Vec<Ev>>,
         /// cells by actor index, filled in by the controller as soon as a registration is seen
         cells: Mutex<HashMap<u64, ActorCell>>,
+        /// actors whose owner is inside `AwaitExit`
+        awaiting: Mutex<Vec<u64>>,
         done: std::sync::Barrier,
     }
 
@@ -878,6 +885,33 @@ mod thr {
                             }
                         }
                     }
+                    Act::AwaitExit { k } => {
+                        sh.awaiting.lock().unwrap().push(k);
+                        if let Some(c) = mine.get(&k) {
+                            // no blocking wait: an idle runtime is not a schedule point. Every turn is one, and
+                            // lets the actor's task (on this runtime) run its regions up to their own points
+                            while c.get_status() != ActorStatus::Stopped {
+                                verif::point("h.spin");
+                                tokio::task::yield_now().await;
+                            }
+                            let _ = c.wait(None).await;
+                            sh.events.lock().unwrap().push(Ev::WaitRet { k });
+                        }
+                    }
+                    Act::EndOther { k, kill } => {
+                        // turn (through schedule points) until the owner waits; its spawn may have failed
+                        while !sh.awaiting.lock().unwrap().contains(&k) {
+                            verif::point("h.spin");
+                        }
+                        let c = sh.cells.lock().unwrap().get(&k).cloned();
+                        if let Some(c) = c {
+                            if kill {
+                                c.kill();
+                            } else {
+                                c.stop(None);
+                            }
+                        }
+                    }
                 }
             }
         });
@@ -891,7 +925,28 @@ mod thr {
 
     /// Programs: every thread spawns under shared names, looks names up, exits its own
     /// actors and respawns; the last actions exit whatever the thread still owns.
-    fn gen_programs(rng: &mut Rng) -> Vec<Vec<Act>> {
+    fn gen_programs(rng: &mut Rng, seed: u64) -> Vec<Vec<Act>> {
+        if seed % 5 == 2 {
+            // wave 2: an actor ended from ANOTHER OS thread (kill/stop through the shared reference) while its
+            // owner waits; lookups and a same-name respawn race the exit
+            let kill = rng.chance(2, 3);
+            let mut t1 = Vec::new();
+            for _ in 0..rng.below(3) {
+                t1.push(Act::Lookup { n: 0 });
+            }
+            t1.push(Act::EndOther { k: 0, kill });
+            for _ in 0..rng.range(1, 3) {
+                t1.push(Act::Lookup { n: 0 });
+            }
+            t1.push(Act::Spawn { k: 1, n: 0, fail: false });
+            t1.push(Act::Lookup { n: 0 });
+            t1.push(Act::Exit { k: 1, kill: false });
+            let mut progs = vec![vec![Act::Spawn { k: 0, n: 0, fail: false }, Act::AwaitExit { k: 0 }], t1];
+            if rng.chance(1, 2) {
+                progs.push(vec![Act::Lookup { n: 0 }, Act::Lookup { n: 0 }, Act::Lookup { n: 0 }]);
+            }
+            return progs;
+        }
         if rng.chance(1, 4) {
             // the late-drain window: thread 0's actor exits; thread 1 drains it through a stale
             // reference while it is stopping, takes the name, drains again
@@ -1054,10 +1109,21 @@ mod thr {
 
     pub fn run_case(log: &mut Log, st: &mut Stats, seed: u64) {
         let mut rng = Rng::new(seed);
-        let progs = gen_programs(&mut rng);
+        let progs = gen_programs(&mut rng, seed);
         let sticky = rng.below(4); // 0: uniform; else: keep running the same thread with prob.
         let mut sched = Sched::Random { rng, sticky };
         run_progs(log, st, seed.to_string(), progs, &mut sched);
+    }
+
+    /// a cell of the pid table that the harness has not recorded yet (cluster build only)
+    #[cfg(feature = "cluster")]
+    fn window_cell(w: &World) -> Option<ActorCell> {
+        // ids are handed out in increasing order: the youngest unknown cell is the one under construction
+        registry::get_all_pids().into_iter().filter(|c| c.get_id().is_local() && w.k_of(c) == 999).max_by_key(|c| c.get_id().pid())
+    }
+    #[cfg(not(feature = "cluster"))]
+    fn window_cell(_w: &World) -> Option<ActorCell> {
+        None
     }
 
     fn run_progs(log: &mut Log, st: &mut Stats, seed: String, progs: Vec<Vec<Act>>, sched: &mut Sched) {
@@ -1065,6 +1131,7 @@ mod thr {
             ctx: Mutex::new(HashMap::new()),
             events: Mutex::new(Vec::new()),
             cells: Mutex::new(HashMap::new()),
+            awaiting: Mutex::new(Vec::new()),
             done: std::sync::Barrier::new(progs.len() + 1), // the threads and the controller
         });
         // in the cluster build the pid table is compared too
@@ -1137,25 +1204,62 @@ mod thr {
             let act = sh.ctx.lock().unwrap().get(&tid).cloned().unwrap();
             ctls[tid].grant();
             let mut ph = ctls[tid].wait_parked_timeout(Duration::from_secs(20));
-            // cluster build: `ActorCell::new` has a point between its two registry operations; this engine's
-            // model (`Model/Registry.lean`) has them as one region, so the thread is taken through it at once
-            // (the window itself is the subject of `regmon.rs` / `Model/RegistryConc.lean`)
+            // cluster build: `ActorCell::new` has a point between its two registry operations. The model
+            // `Model/Registry.lean` has them as one region (`reg k n`): the thread is taken through the point
+            // at once - always under a scripted schedule (the `thrx` enumeration and old replay files stay as
+            // they were), and under a random schedule with probability 1/2. Otherwise the thread stays parked
+            // INSIDE the constructor window (name inserted, pid not yet): the step is logged as `regname k n`,
+            // the thread shows up in `parked` at `new.reg_pid` and its next step is `regpid k`
+            // (`Model/RegistryWindow.lean`); whatever other threads do meanwhile runs inside the window.
+            // The coin is only tossed when the point is reached, i.e. never in the non-cluster build.
+            let mut window_opened = false;
             while ph == Some(ThreadPhase::AtPoint("new.reg_pid")) {
+                // (`h.act`: a constructor that reaches the window without having entered `registry::register`
+                // at all - impossible in the code as it is; reported as `regname` too, the oracle then reads
+                // off the tables that the name is not there)
+                if point == "reg.entry" || (point == "h.act" && matches!(act, Act::Spawn { .. })) {
+                    if let Sched::Random { rng, .. } = sched {
+                        if rng.chance(1, 2) {
+                            window_opened = true;
+                            break;
+                        }
+                    }
+                }
                 ctls[tid].grant();
                 ph = ctls[tid].wait_parked_timeout(Duration::from_secs(20));
             }
             steps += 1;
+            // steps of OTHER threads taken while some thread sits in the window
+            if parked.iter().any(|(t, p)| *t != tid && *p == "new.reg_pid") {
+                st.bump("thr_window_foreign_steps");
+                let what = match point {
+                    "reg.entry" => "reg",
+                    "h.act" => "act",
+                    "new.reg_pid" => "regpid",
+                    "status.publish" => "pub",
+                    _ => "other",
+                };
+                st.bump(&format!("thr_window_foreign_{what}"));
+            }
             let k = match &act {
                 Act::Spawn { k, .. } | Act::Exit { k, .. } | Act::LateDrain { k } => *k,
+                Act::AwaitExit { k } | Act::EndOther { k, .. } => *k,
                 Act::Lookup { .. } => 0,
             };
             let mut events: Vec<Ev> = std::mem::take(&mut *sh.events.lock().unwrap());
-            let (op, ans): (String, String) = match point {
+            let (op, ans): (String, String) = match if window_opened { "reg.entry" } else { point } {
                 "reg.entry" => {
                     let n = names_of[&k];
                     // who holds the name now? an unknown cell is the one just registered
-                    let ans = match registry::where_is(nm(n)) {
-                        Some(c) if w.k_of(&c) == 999 => {
+                    let mut newc = registry::where_is(nm(n)).filter(|c| w.k_of(c) == 999);
+                    // a thread parked at `new.reg_pid` is past the first registry operation of its constructor,
+                    // which therefore answered Ok: should the name table not show the cell (it must), the cell
+                    // is taken from the pid table so that the view - and the oracle - can speak about it
+                    if window_opened && newc.is_none() {
+                        newc = window_cell(&w);
+                    }
+                    let ans = match newc {
+                        Some(c) => {
                             let rec = Rec {
                                 cell: c,
                                 name: Some(n),
@@ -1168,12 +1272,26 @@ mod thr {
                             w.recs.insert(k, rec);
                             "ok"
                         }
-                        _ => "dup",
+                        None if window_opened => "ok",
+                        None => "dup",
                     };
                     st.bump(&format!("thr_reg_{ans}"));
-                    (format!("reg {k} {n}"), ans.into())
+                    if window_opened {
+                        st.bump("thr_window_opened");
+                        (format!("regname {k} {n}"), ans.into())
+                    } else {
+                        (format!("reg {k} {n}"), ans.into())
+                    }
+                }
+                // the second half of a constructor left parked in the window: `register_pid`
+                "new.reg_pid" => {
+                    st.bump("thr_window_closed");
+                    (format!("regpid {k}"), "ok".into())
                 }
                 "status.publish" => {
+                    if matches!(act, Act::AwaitExit { .. }) {
+                        st.bump("thr_cross_end_publishes");
+                    }
                     let s = pubs.get_mut(&k).and_then(|v| v.pop()).unwrap_or(9);
                     (format!("pub {k} {s}"), "ok".into())
                 }
@@ -1198,6 +1316,10 @@ mod thr {
                             }
                         };
                         (format!("lookup {n}"), ans)
+                    }
+                    Act::EndOther { .. } => {
+                        st.bump("thr_cross_end");
+                        ("skip h.act".into(), "ok".into())
                     }
                     _ => ("skip h.act".into(), "ok".into()),
                 },
